@@ -153,3 +153,68 @@ def mixed(xs: list[fp.Real], x: fp.Real) -> fp.Real:
 
 
 ROOTS = ['loops_a', 'loops_b', 'odd_trip', 'calls_a', 'calls_b', 'rounds_a', 'rounds_b', 'mixed']
+
+
+# ---------------------------------------------------------------------------
+# user rewrite rules (module-level objects, reused across histories and roots)
+
+@fp.pattern
+def _fma_l(a, b, c):
+    a * b + c
+
+
+@fp.pattern
+def _fma_r(a, b, c):
+    fp.fma(a, b, c)
+
+
+@fp.pattern
+def _sum_l(xs):
+    y = 0
+    for x in xs:
+        y += x
+
+
+@fp.pattern
+def _sum_r(xs):
+    y = sum(xs)
+
+
+@fp.pattern
+def _dbl_l(a):
+    a + a
+
+
+@fp.pattern
+def _dbl_r(a):
+    2 * a
+
+
+@fp.fpy
+def rw_a(x: fp.Real, y: fp.Real, zs: list[fp.Real]) -> fp.Real:
+    t = x * y + 91
+    acc = 0
+    for z in zs:
+        acc += z
+    u = (t + t) * 92
+    for w in zs:
+        u = u + w * y + 93
+    if u > 94:
+        v = u * x + acc
+        u = (v + v) - 95
+    tot = 0
+    for q in zs:
+        tot += q
+    return u * tot + 96
+
+
+def rules():
+    from fpy2.rewrite import Rewrite
+    return {
+        'fma': (_fma_l, _fma_r),
+        'sum': (_sum_l, _sum_r),
+        'dbl': (_dbl_l, _dbl_r),
+    }
+
+
+ROOTS.append('rw_a')
